@@ -168,7 +168,9 @@ pub fn WaitForSingleObject(handle: &Handle, mut timeout: Option<Duration>) -> Re
         // timeout and sleeping in a loop.
         let (timeout_ms, overflow) = timeout
             .map(|timeout| {
-                let timeout = timeout.as_millis();
+                // round up: waiting for less than requested would report a
+                // timeout before it has elapsed
+                let timeout = (timeout.as_nanos() + 999_999) / 1_000_000;
                 if timeout < INFINITE as u128 {
                     (timeout as u32, false)
                 } else {
